@@ -23,6 +23,10 @@ type frontCase struct {
 	files  map[string]string
 	// wantErr: the program must be rejected with a diagnostic (no panic, no output)
 	wantErr bool
+	// wantInErrs: every one of these strings must occur in the diagnostics
+	wantInErrs []string
+	// useLoad: run Load (wire check / wire show) instead of Generate
+	useLoad bool
 }
 
 const frontWireStub = `package wire
@@ -77,12 +81,33 @@ func frontCases() []frontCase {
 			"wire.go": hdr + "type S struct {\n\tFoo int\n\tfoo string\n}\nfunc provideInt() int { return 1 }\nfunc inject() S { wire.Build(provideInt, wire.Struct(new(S), \"foo\")); return S{} }\n"}},
 		{name: "PreventTagWithOtherKeys", fn: "wire:isPrevented", clause: "*", wantErr: true, files: map[string]string{
 			"wire.go": hdr + "type S struct {\n\tA int `json:\"a\" wire:\"-\"`\n}\nfunc provideInt() int { return 1 }\nfunc inject() S { wire.Build(provideInt, wire.Struct(new(S), \"A\")); return S{} }\n"}},
+		{name: "StructPointerFormClashesWithEarlierProvider", fn: "wire:buildProviderMap", clause: "*", wantErr: true, files: map[string]string{
+			"wire.go": hdr + "type Foo struct{ A int }\ntype Both struct { V Foo; P *Foo }\nfunc provideInt() int { return 1 }\nfunc providePtr() *Foo { return &Foo{} }\nfunc provideBoth(v Foo, p *Foo) Both { return Both{v, p} }\nfunc inject() Both { wire.Build(provideInt, providePtr, provideBoth, wire.Struct(new(Foo), \"A\")); return Both{} }\n"}},
+		{name: "TwoMissingInputsBothNamed", fn: "wire:solve", clause: "*", wantErr: true, wantInErrs: []string{"Missing1", "Missing2"}, files: map[string]string{
+			"wire.go": hdr + "type Missing1 int\ntype Missing2 int\ntype Mid int\ntype Other int\ntype Top int\ntype Res int\nfunc provideMid(m Missing1) Mid { return 0 }\nfunc provideOther(m Mid) Other { return 0 }\nfunc provideTop(b Missing2, a Mid) Top { return 0 }\nfunc provideRes(o Other, t Top) Res { return 0 }\nfunc inject() Res { wire.Build(provideMid, provideOther, provideTop, provideRes); return 0 }\n"}},
+		{name: "SecondFieldUnused", fn: "wire:verifyArgsUsed", clause: "*", wantErr: true, files: map[string]string{
+			"wire.go": hdr + "type S struct { A int; B string }\nfunc provideS() S { return S{} }\nfunc inject() int { wire.Build(provideS, wire.FieldsOf(new(S), \"A\", \"B\")); return 0 }\n"}},
+		{name: "InjectorWithErrorProviderWithCleanup", fn: "wire:(*gen).inject", clause: "*", wantErr: true, files: map[string]string{
+			"wire.go": hdr + "type T int\nfunc provideT() (T, func()) { return 0, func() {} }\nfunc inject() (T, error) { wire.Build(provideT); return 0, nil }\n"}},
+		{name: "InjectorWithCleanupProviderWithError", fn: "wire:(*gen).inject", clause: "*", wantErr: true, files: map[string]string{
+			"wire.go": hdr + "type T int\nfunc provideT() (T, error) { return 0, nil }\nfunc inject() (T, func()) { wire.Build(provideT); return 0, nil }\n"}},
+		{name: "CycleNotReachableFromInjector", fn: "wire:verifyAcyclic", clause: "*", wantErr: true, files: map[string]string{
+			"wire.go": hdr + "type A int\ntype B int\ntype C int\nfunc provideA(b B) A { return 0 }\nfunc provideB(a A) B { return 0 }\nfunc provideC() C { return 0 }\nvar Set = wire.NewSet(provideA, provideB, provideC)\nfunc inject() C { wire.Build(Set); return 0 }\n"}},
+		{name: "DuplicateParameterTypes", fn: "wire:processFuncProvider", clause: "*", wantErr: true, files: map[string]string{
+			"wire.go": hdr + "type T int\nfunc provideInt() int { return 1 }\nfunc provideT(a int, s string, b int) T { return 0 }\nfunc provideString() string { return \"\" }\nfunc inject() T { wire.Build(provideInt, provideString, provideT); return 0 }\n"}},
+		{name: "ProviderWithFourResults", fn: "wire:funcOutput", clause: "*", wantErr: true, files: map[string]string{
+			"wire.go": hdr + "type T int\nfunc provideT() (T, func(), error, int) { return 0, nil, nil, 0 }\nfunc inject() (T, func(), error) { wire.Build(provideT); return 0, nil, nil }\n"}},
+		{name: "CheckAgreesWithGenOnMissingError", fn: "wire:Load", clause: "*", wantErr: true, useLoad: true, files: map[string]string{
+			"wire.go": hdr + "type T int\nfunc provideT() (T, error) { return 0, nil }\nfunc inject() T { wire.Build(provideT); return 0 }\n"}},
 		{name: "BuildNil", fn: "wire:(*objectCache).get", clause: "nilderef#2", wantErr: true, files: map[string]string{
 			"wire.go": hdr + "func provideInt() int { return 1 }\nfunc inject() int { wire.Build(provideInt, nil); return 0 }\n"}},
 	}
 }
 
+var frontErrText string
+
 func runFrontCase(t *testing.T, c frontCase) (panicked bool, detail string, nerr int, hasContent bool) {
+	frontErrText = ""
 	dir, err := ioutil.TempDir("", "govc-front-")
 	if err != nil {
 		t.Fatal(err)
@@ -119,9 +144,22 @@ func runFrontCase(t *testing.T, c frontCase) (panicked bool, detail string, nerr
 		}
 	}()
 	env := append(os.Environ(), "GOFLAGS=-mod=mod", "GOPROXY=off", "GOSUMDB=off", "GO111MODULE=on")
+	if c.useLoad {
+		_, lerrs := Load(context.Background(), dir, env, "", []string{"."})
+		for _, e := range lerrs {
+			frontErrText += e.Error() + "\n"
+		}
+		return false, "", len(lerrs), false
+	}
 	gens, errs := Generate(context.Background(), dir, env, []string{"."}, &GenerateOptions{})
 	nerr = len(errs)
+	for _, e := range errs {
+		frontErrText += e.Error() + "\n"
+	}
 	for _, g := range gens {
+		for _, e := range g.Errs {
+			frontErrText += e.Error() + "\n"
+		}
 		nerr += len(g.Errs)
 		if len(g.Content) > 0 {
 			hasContent = true
@@ -150,6 +188,16 @@ func TestReplay_frontend(t *testing.T) {
 		case c.wantErr && (nerr == 0 || hasContent):
 			fails++
 			fmt.Printf("REPLAY-FAIL fn=%s clause=%s input={%s} detail=accepted a program that must be rejected (errors=%d, output=%v)\n", c.fn, c.clause, c.name, nerr, hasContent)
+		case func() bool {
+			for _, w := range c.wantInErrs {
+				if !strings.Contains(frontErrText, w) {
+					return true
+				}
+			}
+			return false
+		}():
+			fails++
+			fmt.Printf("REPLAY-FAIL fn=%s clause=%s input={%s} detail=the diagnostics do not name %v: %s\n", c.fn, c.clause, c.name, c.wantInErrs, strings.Replace(frontErrText, "\n", " | ", -1))
 		default:
 			fmt.Printf("replay ok %s (errors=%d, output=%v)\n", c.name, nerr, hasContent)
 		}
